@@ -321,7 +321,10 @@ func (e *Exec) objFor(p uintptr, ref any, g *G, pos string) *Obj {
 func Go(pos string, fn func()) {
 	e := cur.Load()
 	if e == nil {
-		go fn()
+		// Outside a controlled execution (objects constructed while planning a scenario):
+		// background goroutines of such objects are not started; they would otherwise
+		// wander into a later execution without being under its scheduler.
+		DroppedGo.Add(1)
 		return
 	}
 	parent := e.self()
@@ -778,6 +781,9 @@ func RunOnce(t *testing.T, s Strategy, cfg Config, body func()) *Result {
 	})
 	return res
 }
+
+// DroppedGo counts goroutines not started because they were spawned outside an execution.
+var DroppedGo atomic.Int64
 
 // Poisoned is set when an execution could not be torn down completely; the worker
 // process should finish reporting and exit.
